@@ -222,7 +222,7 @@ def bin_path(name, release=False):
     return os.path.join(TARGET, "release" if release else "debug", name)
 
 
-def run_coq_cases(pid, shard_files, header, list_type="case", fn="failures", jobs=16, timeout=1500):
+def run_coq_cases(pid, shard_files, header, list_type="case", fn="failures", jobs=16, timeout=5400):
     """each shard file holds one Coq term per line; returns ({shard: [indices]}, errors)"""
     def one(path):
         lines = [l for l in open(path).read().splitlines() if l.strip()]
@@ -240,8 +240,11 @@ def run_coq_cases(pid, shard_files, header, list_type="case", fn="failures", job
     with ThreadPoolExecutor(max_workers=jobs) as ex:
         for path, n, rc, out in ex.map(one, shard_files):
             total += n
+            if rc == 124:
+                # the machine was too busy to evaluate this shard in time: not a verdict about the code
+                raise CheckError(f"coqc timed out after {timeout} s on {path} (machine overloaded?)")
             if rc != 0:
-                errors.append((path, out[-2000:]))
+                errors.append((path, out[-2000:] or f"coqc exit code {rc}"))
                 continue
             m = re.search(r"=\s*\[(.*?)\]\s*:\s*list", out.replace("\n", " "), re.S)
             if not m:
